@@ -491,8 +491,53 @@ func ruleSIB3(w *World) []Ob {
 		name string
 	}{{d, "(*gtree.colorizeSpreaderSimple).spreadBranch"}} {
 		fn := spec.p.Func(spec.name)
+		byRole := func() {
+			// by role: the recursive printer of the colourising spreader that is handed a sink and a node
+			okRole := ""
+			for _, f := range libFuncs(spec.p) {
+				if f.Parent() != nil || !callsItself(f) || !strings.Contains(recvTypeName(f), "olorize") || recvTypeName(f) != "colorizeSpreaderSimple" {
+					continue
+				}
+				var cur *ssa.Parameter
+				hasSink := false
+				for _, prm := range f.Params[1:] {
+					if isNodePtr(prm.Type()) {
+						cur = prm
+					}
+					if isSinkType(prm.Type()) {
+						hasSink = true
+					}
+				}
+				if cur == nil || !hasSink {
+					continue
+				}
+				seq, any := writeSequences(spec.p, f, cur)
+				if !any {
+					continue
+				}
+				var rows []vcase
+				for _, c := range seq {
+					t := c.term
+					for _, r := range recvNames(f) {
+						t = strings.ReplaceAll(t, "("+r+",", "(R,")
+					}
+					rows = append(rows, vcase{c.conds, t})
+				}
+				g := byAtom(rows, "isRoot(n)")
+				if len(g["true"]) == 1 && g["true"][0] == `cat(colorize(R,n),"\n")` && len(g["false"]) == 1 && g["false"][0] == `cat(branch(n)," ",colorize(R,n),"\n")` && len(g["*"]) == 0 {
+					okRole = spec.p.FuncID(f)
+					l.ok(spec.p.FuncID(f), "row accumulated per node", spec.p.Pos(f.Pos()), "written into the sink in pieces: isRoot ? colorize(n)+\"\\n\" : branch+\" \"+colorize(n)+\"\\n\", then the children", true, "row")
+				} else {
+					okRole = "bad"
+					l.bad(spec.p.FuncID(f), "row accumulated per node", spec.p.Pos(f.Pos()), fmt.Sprintf("the colourising printer writes root %v, child %v, unconditional %v", g["true"], g["false"], g["*"]), "row")
+				}
+			}
+			if okRole == "" {
+				l.undecided(spec.name, "row accumulated per node", "-", "printer not found", "row")
+			}
+		}
 		if fn == nil {
-			l.undecided(spec.name, "row accumulated per node", "-", "printer not found", "row")
+			byRole()
 			continue
 		}
 		var base ssa.Value
@@ -512,7 +557,7 @@ func ruleSIB3(w *World) []Ob {
 			}
 		})
 		if base == nil {
-			l.undecided(spec.name, "row accumulated per node", spec.p.Pos(fn.Pos()), "accumulating string not found", "row")
+			byRole() // the named printer only wraps a sink-writing recursive printer
 			continue
 		}
 		cases, why := rowCases(spec.p, base, firstInstr(fn))
@@ -615,6 +660,125 @@ func ruleSIB3(w *World) []Ob {
 			})
 		}
 		if !found {
+			// builder style: a function that is handed the root writes print(root), "\n", summary(), ["\n"] to a sink
+			for _, sf := range scan {
+				var cur *ssa.Parameter
+				for _, prm := range sf.Params {
+					if isNodePtr(prm.Type()) {
+						cur = prm
+					}
+				}
+				if cur == nil || callsItself(sf) {
+					continue
+				}
+				seq, any := writeSequences(p, sf, cur)
+				if !any {
+					continue
+				}
+				var terms []string
+				for _, c := range seq {
+					t := c.term
+					for _, r := range recvNames(sf, fn) {
+						t = strings.ReplaceAll(t, "("+r+")", "(R)")
+					}
+					if strings.Contains(t, "summary(") {
+						terms = append(terms, t)
+					}
+				}
+				terms = dedup(terms)
+				if len(terms) == 0 {
+					continue
+				}
+				found = true
+				want := `cat(print(n),"\n",summary(R),"\n")`
+				if spec.summary == "" {
+					want = `cat(print(n),"\n",summary(R))`
+				}
+				if len(terms) == 1 && terms[0] == want {
+					l.ok(spec.name, "dry-run report per root", p.Pos(sf.Pos()), "written to the sink in pieces by "+fname(sf)+": "+want, true, "report")
+				} else {
+					l.bad(spec.name, "dry-run report per root", p.Pos(sf.Pos()), fmt.Sprintf("the per-root report written by %s is %v, expected %s", fname(sf), terms, want), "report")
+				}
+			}
+		}
+		if !found {
+			// the same inside the per-root loop of the spreader itself: one iteration writes print(root), "\n", summary()
+			for _, sf := range scan {
+				var printCall *ssa.Call
+				allInstrs(sf, func(in ssa.Instruction) {
+					c, ok := in.(*ssa.Call)
+					if !ok || c.Common().StaticCallee() == nil || !p.InModule(c.Common().StaticCallee()) || !callsItself(c.Common().StaticCallee()) || !inLoop(c) {
+						return
+					}
+					hasSink, hasNode := false, false
+					for _, a := range c.Common().Args {
+						if isSinkType(a.Type()) {
+							hasSink = true
+						}
+						if isNodePtr(a.Type()) {
+							hasNode = true
+						}
+					}
+					if hasSink && hasNode {
+						printCall = c
+					}
+				})
+				if printCall == nil {
+					continue
+				}
+				var header *ssa.BasicBlock
+				for b := printCall.Block(); b != nil; b = b.Idom() {
+					isHead := false
+					for _, pr := range b.Preds {
+						if b.Dominates(pr) {
+							isHead = true
+						}
+					}
+					if isHead {
+						header = b
+						break
+					}
+				}
+				if header == nil {
+					continue
+				}
+				var nodeArg ssa.Value
+				for _, a := range printCall.Common().Args {
+					if isNodePtr(a.Type()) {
+						nodeArg = a
+					}
+				}
+				seq, any := writeSequencesFrom(p, sf, nodeArg, header)
+				if !any {
+					continue
+				}
+				var terms []string
+				for _, c := range seq {
+					t := c.term
+					for _, r := range recvNames(sf, fn) {
+						t = strings.ReplaceAll(t, "("+r+")", "(R)")
+					}
+					if strings.Contains(t, "summary(") {
+						terms = append(terms, t)
+					}
+				}
+				terms = dedup(terms)
+				if len(terms) == 0 {
+					continue
+				}
+				found = true
+				want := `cat(print(n),"\n",summary(R),"\n")`
+				if spec.summary == "" {
+					want = `cat(print(n),"\n",summary(R))`
+				}
+				if len(terms) == 1 && terms[0] == want {
+					l.ok(spec.name, "dry-run report per root", p.InstrPos(printCall), "one iteration of the per-root loop writes "+want+" to the sink", true, "report")
+				} else {
+					l.bad(spec.name, "dry-run report per root", p.InstrPos(printCall), fmt.Sprintf("one iteration of the per-root loop writes %v, expected %s", terms, want), "report")
+				}
+			}
+		}
+		if !found {
 			l.bad(spec.name, "dry-run report per root", p.Pos(fn.Pos()), "no fmt.Sprintf assembles tree text and summary", "report")
 		}
 	}
@@ -693,11 +857,22 @@ func ruleSIB3(w *World) []Ob {
 	// the tinywasm printers, by role: the recursive functions of the variant that take a node and return its text
 	var wPrinters []*ssa.Function
 	for _, f := range libFuncs(pw) {
-		if !wOnlyFunc(w, f) || f.Parent() != nil || !callsItself(f) || f.Signature.Results().Len() != 1 {
+		if !wOnlyFunc(w, f) || f.Parent() != nil || !callsItself(f) {
 			continue
 		}
-		if b, ok := f.Signature.Results().At(0).Type().Underlying().(*types.Basic); !ok || b.Info()&types.IsString == 0 {
-			continue
+		sinkStyle := false
+		for _, prm := range f.Params {
+			if isSinkType(prm.Type()) {
+				sinkStyle = true
+			}
+		}
+		if !sinkStyle {
+			if f.Signature.Results().Len() != 1 {
+				continue
+			}
+			if b, ok := f.Signature.Results().At(0).Type().Underlying().(*types.Basic); !ok || b.Info()&types.IsString == 0 {
+				continue
+			}
 		}
 		hasNode := false
 		for _, prm := range f.Params {
@@ -734,6 +909,25 @@ func ruleSIB3(w *World) []Ob {
 		if c, ok := base.(*ssa.Call); ok && c.Common().StaticCallee() != nil && fname(c.Common().StaticCallee()) == "branch" {
 			if prm, ok := c.Common().Args[0].(*ssa.Parameter); ok && isNodePtr(prm.Type()) {
 				okBase = true
+			}
+		}
+		if base == nil {
+			// sink style: the only thing written before the children is the node's baked branch
+			var cur *ssa.Parameter
+			for _, prm := range fn.Params {
+				if isNodePtr(prm.Type()) && !(fn.Signature.Recv() != nil && prm == fn.Params[0]) {
+					cur = prm
+				}
+			}
+			if cur != nil {
+				if seq, any := writeSequences(pw, fn, cur); any {
+					okBase = len(seq) > 0
+					for _, c := range seq {
+						if c.term != "cat(branch(n))" && c.term != "branch(n)" {
+							okBase = false
+						}
+					}
+				}
 			}
 		}
 		if okBase {
